@@ -63,7 +63,14 @@ def skeleton(F, fn, _depth=0):
             t = b.term(blk)
             if t["k"] == "call":
                 c = F.local_callee(lb, t)
-                if c in sfns:
+                if c is not None and c.kind == "coroutine" and root_fn(F, c) is not root_fn(F, lb) and root_fn(F, c).vis not in ("pub", "crate"):
+                    c = root_fn(F, c)   # awaiting a private local async fn: `Future::poll` resolves to its coroutine body
+                same_ty = c is not None and (c.raw.get("self_ty") or "").split("<")[0] == (fn.raw.get("self_ty") or "").split("<")[0]
+                if c is not None and c not in sfns and same_ty and c is not fn and c.kind == "assoc" and not c.raw.get("impl_trait") \
+                        and c.vis not in ("pub", "crate") and _depth < 3 and c.name not in ("from_inner", "new", "new_async"):
+                    # a private helper of the same type (possibly async: a coroutine of its own): its events are the caller's
+                    ev.extend(skeleton(F, c, _depth + 1))
+                elif c in sfns:
                     ev.append(("state." + c.name,) + tuple(arg_class(b, a) for a in t["args"][1:]))
                 elif c is not None and (c.raw.get("self_ty") or "").startswith("subscriber::Subscriber<") and not c.raw.get("impl_trait"):
                     nm = c.name.replace("_async", "")
@@ -73,6 +80,10 @@ def skeleton(F, fn, _depth=0):
                         ev.append(("Subscriber::new", arg_class(b, t["args"][1])))
                     else:
                         ev.append(("self." + nm,))
+                elif c is not None and not c.raw.get("impl_trait") and c is not fn and (c.raw.get("self_ty") or "").split("<")[0] == (fn.raw.get("self_ty") or "").split("<")[0] and c.kind == "assoc" \
+                        and c.vis not in ("pub", "crate") and _depth < 3 and c.name not in ("from_inner",):
+                    # a private helper of the same type (possibly async: a coroutine of its own): its events are the caller's
+                    ev.extend(skeleton(F, c, _depth + 1))
                 elif c is not None and not c.raw.get("impl_trait") and c is not fn and (c.raw.get("self_ty") or "").split("<")[0] == (fn.raw.get("self_ty") or "").split("<")[0] and c.kind == "assoc" \
                         and c.name not in ("from_inner",):
                     # a same-type wrapper that is itself a pure pass-through to one state method (`Self::set` -> state.set) is
